@@ -57,13 +57,112 @@ func TestPropDeleteHistories(t *testing.T) {
 			}
 		}
 		var tt *rapid.T = t
+		// "advancing" histories: every snapshot closes a time window and later writes go to later
+		// windows, so the TSM files of a key hold disjoint, ascending time ranges (the shape of
+		// append-mostly workloads; it sends compactions down their block pass-through paths) and a
+		// delete can hit a later file only.
+		advancing := rapid.IntRange(0, 2).Draw(t, "advancing") == 0
+		window := 0
+		const winSpan = 40
+		advBatch := func(label string, max int) []gen.WPoint {
+			n := rapid.IntRange(1, max).Draw(tt, label+"n")
+			out := make([]gen.WPoint, 0, n)
+			for i := 0; i < n; i++ {
+				f := rapid.SampledFrom(gen.Fields).Draw(tt, label+"f")
+				mc.Seq++
+				out = append(out, gen.WPoint{Series: rapid.SampledFrom(gen.SeriesKeys).Draw(tt, label+"s"),
+					T:      int64(1000 + window*winSpan + rapid.IntRange(0, winSpan-1).Draw(tt, label+"t")),
+					Fields: map[string]model.Val{f.Name: gen.Value(tt, label+"v", f.Kind, mc.Seq)}})
+			}
+			return out
+		}
+		if advancing {
+			rec.Class("history:advancing-time-windows")
+		}
+		// bulk regions: exactly-full (1000 point) blocks of one key, each in its own file; a full
+		// compaction passes such blocks through undecoded unless a tombstone forces a rewrite
+		bulkRegions := 0
+		const bulkSeries, bulkBase, bulkSpan = "m0,host=a", int64(100000), int64(2000)
+		bulkField := gen.BulkField.Name
+		mc.ExtraKeys = [][2]string{{bulkSeries, bulkField}}
+		bulk := func() {
+			n := rapid.SampledFrom([]int{1000, 1000, 1000, 999, 1001, 1500}).Draw(tt, "bulkN")
+			pts := make([]gen.WPoint, 0, n)
+			for i := 0; i < n; i++ {
+				mc.Seq++
+				pts = append(pts, gen.WPoint{Series: bulkSeries, T: bulkBase + int64(bulkRegions)*bulkSpan + int64(i), Fields: map[string]model.Val{bulkField: {K: model.Integer, I: int64(mc.Seq)}}})
+			}
+			mc.Write(pts)
+			mc.Ops[len(mc.Ops)-1] = eng.Op{Kind: "bulk", Arg: fmt.Sprintf("%s/%s region %d n=%d", bulkSeries, bulkField, bulkRegions, n)}
+			mc.Snapshot()
+			window++
+			bulkRegions++
+			rec.Class("step:bulk-full-block-file")
+		}
 		acts := map[string]func(*rapid.T){
-			"write":    g(func() { mc.Write(gen.Batch(tt, "w", 10, &mc.Seq)) }),
-			"snapshot": g(func() { mc.Snapshot() }),
+			"bulk": g(func() {
+				if !advancing || bulkRegions >= 3 {
+					mc.Write(gen.Batch(tt, "w", 10, &mc.Seq))
+					return
+				}
+				bulk()
+			}),
+			// by construction: >=2 files each holding a full block of the bulk key, a delete inside a
+			// later one only, then a full compaction (which passes full blocks through undecoded
+			// unless the tombstone forces a rewrite)
+			"bulkDeleteCompact": g(func() {
+				if !advancing {
+					ss, lo, hi := genDelete(tt)
+					mc.Delete(ss, lo, hi)
+					return
+				}
+				for bulkRegions < 2 {
+					bulk()
+				}
+				r := int64(rapid.IntRange(1, bulkRegions-1).Draw(tt, "br"))
+				a := int64(rapid.IntRange(0, 1100).Draw(tt, "ba"))
+				b := a + int64(rapid.IntRange(0, 400).Draw(tt, "bb"))
+				mc.Delete([]string{bulkSeries}, bulkBase+r*bulkSpan+a, bulkBase+r*bulkSpan+b)
+				rec.Class("step:delete-inside-later-full-block-then-full-compaction")
+				mc.Compact("forcefull")
+			}),
+			"bulkDelete": g(func() {
+				if bulkRegions == 0 {
+					ss, lo, hi := genDelete(tt)
+					mc.Delete(ss, lo, hi)
+					return
+				}
+				r := int64(rapid.IntRange(0, bulkRegions-1).Draw(tt, "br"))
+				a := int64(rapid.IntRange(0, 1200).Draw(tt, "ba"))
+				b := a + int64(rapid.IntRange(0, 400).Draw(tt, "bb"))
+				mc.Delete([]string{bulkSeries}, bulkBase+r*bulkSpan+a, bulkBase+r*bulkSpan+b)
+				rec.Class("step:delete-inside-full-block")
+			}),
+			"write": g(func() {
+				if advancing {
+					mc.Write(advBatch("aw", 14))
+					return
+				}
+				mc.Write(gen.Batch(tt, "w", 10, &mc.Seq))
+			}),
+			"snapshot": g(func() { mc.Snapshot(); window++ }),
 			"compact": g(func() {
 				mc.Compact(rapid.SampledFrom([]string{"level1", "level2", "forcefull", "full", "optimize"}).Draw(tt, "kind"))
 			}),
-			"delete": g(func() { ss, lo, hi := genDelete(tt); mc.Delete(ss, lo, hi) }),
+			"delete": g(func() {
+				ss, lo, hi := genDelete(tt)
+				if advancing && rapid.IntRange(0, 3).Draw(tt, "advDelete") > 0 {
+					// a range inside one (usually recent) window: hits that window's file only
+					w := window - rapid.IntRange(0, 3).Draw(tt, "dw")
+					if w < 0 {
+						w = 0
+					}
+					a := rapid.IntRange(0, winSpan-1).Draw(tt, "da")
+					b := rapid.IntRange(a, winSpan-1).Draw(tt, "db")
+					lo, hi = int64(1000+w*winSpan+a), int64(1000+w*winSpan+b)
+				}
+				mc.Delete(ss, lo, hi)
+			}),
 			"deleteDuringSnapshot": g(func() {
 				if steps < windowAfter {
 					mc.Write(gen.Batch(tt, "w", 10, &mc.Seq))
@@ -80,6 +179,9 @@ func TestPropDeleteHistories(t *testing.T) {
 		}
 		acts["write2"], acts["delete2"], acts["snapshot2"] = acts["write"], acts["delete"], acts["snapshot"]
 		pre := rapid.SampledFrom([]int{0, 1, 2, 4, 8, 9}).Draw(t, "presnaps")
+		if advancing {
+			pre = rapid.SampledFrom([]int{4, 8, 8, 9, 9}).Draw(t, "presnapsAdv")
+		}
 		for i := 0; i < pre; i++ {
 			acts["write"](t)
 			acts["snapshot"](t)
